@@ -12,11 +12,13 @@ import (
 	"path/filepath"
 	"sort"
 	"strings"
+	"sync"
 
 	"github.com/AliceO2Group/Control/apricot/local"
 	apricotpb "github.com/AliceO2Group/Control/apricot/protos"
 	"github.com/AliceO2Group/Control/configuration/componentcfg"
 
+	simconsul "verif/harness/sim/consul"
 	"verif/harness/vlib"
 )
 
@@ -145,6 +147,7 @@ func tplRef(ps []tplPart, vars map[string]string) string {
 // ---------- the monitor ----------
 
 type c20Resolution struct {
+	Backend string `json:"backend,omitempty"`
 	Comp, RT, Role, Entry string
 	Pattern               int // bit0 (rt,role) bit1 (ANY,role) bit2 (rt,any) bit3 (ANY,any)
 	Query                 string
@@ -229,6 +232,9 @@ func c20ResolutionSet(c *vlib.Ctx, idx int64) {
 			// a distractor entry exists in every candidate directory, so a directory test
 			// instead of an entry test is wrong
 			putEntry(cm, cd.rt, cd.role, "zz-other", "distractor")
+			// entries whose names merely START with the queried entry's name are other entries
+			putEntry(cm, cd.rt, cd.role, entry+"0", "distractor-prefix-sibling")
+			putEntry(cm, cd.rt, cd.role, entry+"-x", "distractor-prefix-sibling")
 			if pattern&(1<<ci) != 0 {
 				k := pcomp + "|" + cd.rt + "|" + cd.role
 				if _, done := tpls[k]; done {
@@ -300,10 +306,11 @@ func c20ResolutionSet(c *vlib.Ctx, idx int64) {
 	}
 	varSets := []map[string]string{mkVars("a", false, false), mkVars("b", false, true), mkVars("c", true, false), {}}
 
+	runPatterns := func(svc *local.Service, backend string) {
 	for pattern := 0; pattern < 16; pattern++ {
 		pcomp := fmt.Sprintf("%s-p%d", comp, pattern)
 		qs := pcomp + "/" + rt + "/" + role + "/" + entryPath
-		desc := c20Resolution{Comp: pcomp, RT: rt, Role: role, Entry: entryPath, Pattern: pattern, Query: qs, Vars: varSets}
+		desc := c20Resolution{Comp: pcomp, RT: rt, Role: role, Entry: entryPath, Pattern: pattern, Query: qs, Vars: varSets, Backend: backend}
 		id := c.Case(desc)
 		if idx == 0 && pattern == 5 {
 			c.Sample(desc)
@@ -362,6 +369,88 @@ func c20ResolutionSet(c *vlib.Ctx, idx int64) {
 				break
 			}
 		}
+	}
+	}
+	runPatterns(svc, "file")
+
+	// the same tree in a Consul key/value store (fake Consul agent), the production backend
+	if idx%2 == 0 {
+		cs := simconsul.New()
+		if err := cs.Start(); err != nil {
+			c.Inconclusive("fake consul: " + err.Error())
+			return
+		}
+		defer cs.Stop()
+		var flatten func(prefix string, v interface{})
+		flatten = func(prefix string, v interface{}) {
+			if m, ok := v.(map[string]interface{}); ok {
+				for k, vv := range m {
+					flatten(prefix+"/"+k, vv)
+				}
+				return
+			}
+			cs.Put(strings.TrimPrefix(prefix, "/"), fmt.Sprint(v))
+		}
+		flatten("", root)
+		csvc, err := local.NewService("consul://" + cs.Addr)
+		if err != nil {
+			c.Inconclusive("NewService(consul): " + err.Error())
+			return
+		}
+		c.Count("resolution_sets_on_consul_backend", 1)
+		runPatterns(csvc, "consul")
+	}
+
+	// concurrent lookups on ONE service (apricot serves its clients concurrently): every result must
+	// be the one a lone caller gets. (Schedules are not part of the property's quantifier; this is an
+	// extra workload, judged by the same reference.)
+	if idx%4 == 1 {
+		c.Count("resolution_sets_with_concurrent_callers", 1)
+		var wg sync.WaitGroup
+		var cmu sync.Mutex
+		reported := false
+		for g := 0; g < 6; g++ {
+			wg.Add(1)
+			go func(g int) {
+				defer wg.Done()
+				for round := 0; round < 3; round++ {
+					for pattern := 0; pattern < 16; pattern++ {
+						pcomp := fmt.Sprintf("%s-p%d", comp, pattern)
+						qs := pcomp + "/" + rt + "/" + role + "/" + entryPath
+						exists := func(crt, crole string) bool {
+							_, ok := tpls[pcomp+"|"+crt+"|"+crole]
+							return ok
+						}
+						ert, erole, eok := refResolve(exists, rt, role)
+						q, err := componentcfg.NewQuery(qs)
+						if err != nil {
+							continue
+						}
+						res, err := svc.ResolveComponentQuery(q)
+						c.Count("concurrent_resolutions", 1)
+						bad := ""
+						switch {
+						case !eok && err == nil:
+							bad = fmt.Sprintf("resolved to %v although no candidate exists", res)
+						case eok && (err != nil || res == nil):
+							bad = fmt.Sprintf("error %v although (%s,%s) exists", err, ert, erole)
+						case eok && res.Raw() != pcomp+"/"+ert+"/"+erole+"/"+entryPath:
+							bad = fmt.Sprintf("resolved %s, most specific existing is %s/%s", res.Raw(), ert, erole)
+						}
+						if bad != "" {
+							cmu.Lock()
+							if !reported {
+								reported = true
+								desc := c20Resolution{Comp: pcomp, RT: rt, Role: role, Entry: entryPath, Pattern: pattern, Query: qs, Backend: "file, 6 concurrent callers"}
+								c.Violation("RESOLVE", "concurrent-callers/differs-from-lone-caller", fmt.Sprintf("pattern %04b query %s with 6 concurrent callers on one service: %s", pattern, qs, bad), c.Case(desc), desc)
+							}
+							cmu.Unlock()
+						}
+					}
+				}
+			}(g)
+		}
+		wg.Wait()
 	}
 }
 
